@@ -812,6 +812,16 @@ def odd_default_stream(ctx, res):
     rich.free = cc.Field()
     RichT = cc.make_type(rich, "OddRich")
 
+    deep_item = cc.Schema()
+    deep_item.x = cc.IntField(default=1)
+    deep_item.tags = cc.ListField(cc.StringField(), default=lambda: ["t"])
+    deep_item.limits = cc.DictField(cc.StringField(), cc.IntField(), default=lambda: {"cpu": 1})
+    DeepT = cc.make_type(deep_item, "OddDeep")
+    meth_item = cc.Schema()
+    meth_item.x = cc.IntField(default=0)
+    meth_item.tags = cc.ListField(default=lambda: ["t"])
+    cc.instance_method(meth_item, "bump")(lambda cfg: setattr(cfg, "x", cfg.x + 1))
+
     class Holder:
         def __init__(self):
             self.template = [[7], {"k": [8]}]
@@ -847,6 +857,10 @@ def odd_default_stream(ctx, res):
               ("untyped-list-of-dicts", lambda: cc.ListField(default=[{"k": {"j": [1]}}, [[2]]])),
               ("dict-of-lists-of-dicts", lambda: cc.DictField(default={"a": [{"k": [1]}]})),
               ("any-dict-of-dicts", lambda: AnyField(default={"a": {"b": {"c": [1]}}})),
+              # ready-made item configurations whose own schema has typed containers / an instance method
+              ("list-of-configuration-objects-with-typed-containers", lambda: cc.ListField(deep_item, default=[deep_item(x=7)])),
+              ("list-of-config-type-objects-with-typed-containers", lambda: cc.ListField(DeepT, default=[DeepT(x=8)])),
+              ("list-of-configuration-objects-with-method", lambda: cc.ListField(meth_item, default=[meth_item(x=0)])),
               # a default factory that hands out one and the same object on every call (a module-level template, a bound method)
               ("factory-shared-untyped-list", lambda: cc.ListField(default=lambda: shared["l1"])),
               ("factory-shared-typed-list", lambda: cc.ListField(cc.ListField(cc.IntField()), default=lambda: shared["l2"])),
@@ -865,14 +879,32 @@ def odd_default_stream(ctx, res):
         case = {"stream": "odd-default", "what": name}
         res.case(stable(case), kind="odd-default:" + name)
         before_default = tree_of(fld.default)
+        item_schemas = [x for x in (deep_item, meth_item, rich, item) if any(x is sc for sc in all_schemas(s))]
+        fields_before = [list(x._fields) for x in item_schemas]
         try:
             a, b = s(), s()
         except BaseException as e:  # noqa  (RecursionError included)
             res.violate("C13:fresh-build-differs:odd-default", "a second configuration of the schema cannot even be built (%s): the declared default is not handed "
                         "over as a copy of its own" % type(e).__name__, case)
             continue
+        if [list(x._fields) for x in item_schemas] != fields_before:
+            res.violate("C13:schema-changed:odd-default", "building configurations added fields to the item schema of a list default",
+                        dict(case, fields=[list(x._fields) for x in item_schemas], before=fields_before))
+            continue
         first = tree_of(a.sub.f)
         va = a.sub.f
+        if name.endswith("-with-method"):
+            # an instance method of a default item acts on the item it is called on — not on the item declared in the schema
+            try:
+                va[0].bump()
+                acted = (va[0].x, fld.default[0].x, b.sub.f[0].x)
+            except Exception as e:  # noqa
+                acted = "raised %s" % type(e).__name__
+            if acted != (1, 0, 0):
+                res.violate("C13:other-config-changed:odd-default", "an instance method called on one configuration's default item acted on another object "
+                            "(x of: the item it was called on, the declared default's item, another configuration's item)", dict(case, observed=acted, want=[1, 0, 0]))
+                continue
+            va[0].x = 0
         if isinstance(va, (list, tuple)) and va and hasattr(va[0], "_data"):
             if va[0] is b.sub.f[0]:
                 res.violate("C13:other-config-changed:odd-default", "two configurations hold the very same item configuration object taken from the default", case)
